@@ -135,6 +135,16 @@ func c11Positions(c *Ctx, idx int) {
 			nontriv(c.c11Check(f, doc), f)
 		}
 	}
+	if idx%100 == 50 {
+		// results of up to a few megabytes: the outcome must depend on code points, never on encoded size
+		for _, w := range []int{262144, 262145, 349526, 524289, 1048577} {
+			for _, pc := range []string{"-", "é", "✓", "𝌆"} {
+				for _, f := range []string{fmt.Sprintf("length(pad_left(s, `%d`, %s)) == `%d`", w, ref.RawString(pc), max(w, n)), fmt.Sprintf("pad_right(s, `%d`, %s)[-1:] == %s", w, ref.RawString(pc), ref.RawString(pc)), fmt.Sprintf("length(pad_left(s, `%d`))", w)} {
+					nontriv(c.c11Check(f, doc), f)
+				}
+			}
+		}
+	}
 	for _, f := range []string{"length(s)", "reverse(s)", "s[::-1]", "reverse(s) == s[::-1]", "split(s, '')", "length(split(s, '')) == length(s)", "join('', split(s, '')) == s", "find_first(s, sub)", "find_last(s, sub)", "contains(s, sub)", "starts_with(s, sub)", "ends_with(s, sub)", "replace(s, sub, 'é𝌆')", "split(s, sub)", "trim(s, sub)", "trim_left(s, sub)", "trim_right(s, sub)", "pad_left(s, length(s))", "[s, sub] | sort(@)", "max([s, sub])", "min([s, sub])", "s == sub", "join(sub, [s, s])"} {
 		nontriv(c.c11Check(f, doc), f)
 	}
@@ -364,7 +374,7 @@ func c11Rename(c *Ctx, idx int) {
 func init() {
 	Register(&Property{
 		ID:            "C11",
-		Rule:          "strings over an alphabet of 1- to 4-byte code points, combining marks, U+FFFD, U+10FFFF and the empty string (length 0..6, some up to 200, and strings of one encoded width only - 1, 2, 3 or 4 bytes - or two widths, at lengths 15..257 around the usual block sizes): every position parameter over [-len-2, len+2] and +-2^31/2^62 through slices, find_first/find_last (2-4 arguments), pad_left/pad_right (pad characters of every width), split on '' and on substrings with counts, replace with counts, plus length/reverse/join/trim/contains/starts_with/ends_with/sort/min/max(_by) incl. pairs ordered differently by UTF-16 unit and by code point - compared with the reference model on code points; every string in every result checked for UTF-8 validity; renaming relation: a-z mapped order-preservingly to 2-, 3- and 4-byte letters in expression and data must rename the result the same way (library against itself); non-trivial = model decides (positions/order), result contains renamed letters (renaming)",
+		Rule:          "strings over an alphabet of 1- to 4-byte code points, combining marks, U+FFFD, U+10FFFF and the empty string (length 0..6, some up to 200, and strings of one encoded width only - 1, 2, 3 or 4 bytes - or two widths, at lengths 15..257 around the usual block sizes): every position parameter over [-len-2, len+2] and +-2^31/2^62 through slices, find_first/find_last (2-4 arguments), pad_left/pad_right (pad characters of every width; widths up to 130, and widths of 2^18 .. 2^20+1 whose results are 0.3-4.4 MB), split on '' and on substrings with counts, replace with counts, plus length/reverse/join/trim/contains/starts_with/ends_with/sort/min/max(_by) incl. pairs ordered differently by UTF-16 unit and by code point - compared with the reference model on code points; every string in every result checked for UTF-8 validity; renaming relation: a-z mapped order-preservingly to 2-, 3- and 4-byte letters in expression and data must rename the result the same way (library against itself); non-trivial = model decides (positions/order), result contains renamed letters (renaming)",
 		MinNontrivial: 5000,
 		Streams: []Stream{
 			{Name: "positions", N: func(c *Ctx) int { return tierN(c, 1500, 100000) }, Run: c11Positions},
